@@ -183,6 +183,13 @@ namespace via
         if (fail_)
           return false;
 
+        // a line that ended with the previous buffer may be continued in this one
+        if ((Header::VALID == state_) && (iter != end) && std::isblank(*iter))
+        {
+          value_.push_back(' ');
+          state_ = Header::VALUE_LS;
+        }
+
         while ((iter != end) && (Header::VALID != state_))
         {
           char c(static_cast<char>(*iter++));
@@ -214,6 +221,11 @@ namespace via
       /// Calculate the length of the header.
       size_t length() const noexcept
       { return name_.size() + value_.size(); }
+
+      /// Whether any of the line has been read.
+      /// @return true if at least one character of the line has been parsed.
+      bool started() const noexcept
+      { return length_ > 0; }
 
       /// Accessor for the fail flag.
       /// @return the fail flag.
@@ -256,6 +268,7 @@ namespace via
       field_line<MAX_LINE_LENGTH, MAX_WHITESPACE_CHARS, STRICT_CRLF> field_ {};
       bool       valid_ { false }; ///< true if the headers are valid
       bool       fail_ { false };  ///< true if the headers failed validation
+      bool       cr_ { false };    ///< the CR of the blank line has been read
       size_t     length_ { 0u };   ///< the length of the message headers
 
     public:
@@ -271,6 +284,7 @@ namespace via
         field_.clear();
         valid_ = false;
         fail_ = false;
+        cr_ = false;
         length_ = 0;
       }
 
@@ -282,6 +296,7 @@ namespace via
         field_.swap(other.field_);
         std::swap(valid_, other.valid_);
         std::swap(fail_, other.fail_);
+        std::swap(cr_, other.cr_);
         std::swap(length_, other.length_);
       }
 
@@ -296,7 +311,9 @@ namespace via
         if (fail_)
           return false;
 
-        while (iter != end && !is_end_of_line(*iter))
+        // Note: a field line that has been started owns its line ending
+        while (!cr_ && iter != end &&
+               (field_.started() || !is_end_of_line(*iter)))
         {
          // field_line field;
           if (!field_.parse(iter, end))
@@ -304,6 +321,10 @@ namespace via
             fail_ = field_.fail();
             return false;
           }
+
+          // the next character determines whether the line is continued
+          if (iter == end)
+            return false;
 
           length_ += field_.length();
           add(field_.name(), field_.value());
@@ -323,8 +344,11 @@ namespace via
           return false;
 
         // allow \r\n or just \n
-        if ('\r' == *iter)
+        if (!cr_ && ('\r' == *iter))
+        {
+          cr_ = true;
           ++iter;
+        }
 
         if (iter == end)
           return false;
